@@ -344,6 +344,13 @@ func (t *wal) AppendAndSync(entry *proto.LogEntry, callback func(err error)) {
 
 func (t *wal) rolloverSegment() error {
 	var err error
+	if t.syncData {
+		// the sync goroutine only ever flushes the *current* segment: entries appended to this one
+		// since its last flush would never be msync'ed once it is closed
+		if err = t.currentSegment.Flush(); err != nil {
+			return err
+		}
+	}
 	if err = t.currentSegment.Close(); err != nil {
 		return err
 	}
